@@ -130,15 +130,23 @@ impl Registry {
     /// * `mm` -> `millimeter` (prefixes are converted to long form)
     /// * `micron` -> `micrometer` (aliases are expanded)
     pub fn canonicalize(&self, name: &str) -> Option<String> {
-        let res = self.canonicalize_with_prefix(name);
-        if res.is_some() {
-            return res;
-        }
+        let res = self.canonicalize_with_prefix(name).or_else(|| {
+            name.strip_suffix('s')
+                .and_then(|name| self.canonicalize_with_prefix(name))
+        });
 
-        if let Some(name) = name.strip_suffix('s') {
-            self.canonicalize_with_prefix(name)
-        } else {
-            None
-        }
+        // The canonical name has to denote the same value as the name it
+        // was derived from. Expanding an alias of an already prefixed unit
+        // (`tera` + an alias of `megahertz`), a quantity name, or a name
+        // that collides with prefix + unit can produce a candidate that
+        // resolves to nothing or to something else; keep the original
+        // name in that case.
+        res.map(|canon| {
+            if self.lookup(&canon) == self.lookup(name) {
+                canon
+            } else {
+                name.to_owned()
+            }
+        })
     }
 }
